@@ -98,8 +98,8 @@ type adapter[T any] struct {
 
 	// newLT allocates + encodes one transformation through the scheme's lintrans package and returns the
 	// advertised Galois elements (all advertised variants must agree; disagreement is reported by newLT).
-	newLT   func(c *engine.Chooser, p lintrans.Parameters, diags map[int][]T) (lt lintrans.LinearTransformation, galEls []uint64, err error)
-	sk      *rlwe.SecretKey
+	newLT func(c *engine.Chooser, p lintrans.Parameters, diags map[int][]T) (lt lintrans.LinearTransformation, galEls []uint64, err error)
+	sk    *rlwe.SecretKey
 	// caches (per world): Galois keys and input ciphertexts are deterministic functions of
 	// (VERIF_SEED, world, what they are), whatever ran before: each is generated right after its own uni.Seed.
 	keyCache map[string]*rlwe.GaloisKey
@@ -201,14 +201,14 @@ type matrixPlan struct {
 }
 
 type plan struct {
-	entry    int
-	mats     []matrixPlan
-	ctLevel  int
-	levelP   int
-	outMode  int // eEvaluate / eSeq2 / eMany*: 0 fresh at the expected level, 1 max level holding another ciphertext's data, 2 in place (eEvaluate only)
-	ltAlt    bool
-	ctAlt    bool
-	warm     int  // 0: fresh evaluator; 1: WithKey copy of an evaluator already used for another transformation (shared buffers);
+	entry   int
+	mats    []matrixPlan
+	ctLevel int
+	levelP  int
+	outMode int // eEvaluate / eSeq2 / eMany*: 0 fresh at the expected level, 1 max level holding another ciphertext's data, 2 in place (eEvaluate only)
+	ltAlt   bool
+	ctAlt   bool
+	warm    int // 0: fresh evaluator; 1: WithKey copy of an evaluator already used for another transformation (shared buffers);
 	// 2: the SAME evaluator, the keys of the transformation under test are added to its key set after it was created and used
 	repeat   bool // the call is issued twice on the same input (out of place)
 	keyLvlQ  bool // keys generated at exactly the level needed instead of the maximum
@@ -236,11 +236,11 @@ func companion(idx []int, n, which int) []int {
 }
 
 type scenarioCfg struct {
-	sets    []diagSet
-	ratio   int
-	entries []int
-	dedicated bool // small scenario that reports value failures of the known-defect input classes
-	tag     string // non-empty: special input class, becomes part of every signature of the scenario
+	sets      []diagSet
+	ratio     int
+	entries   []int
+	dedicated bool   // small scenario that reports value failures of the known-defect input classes
+	tag       string // non-empty: special input class, becomes part of every signature of the scenario
 }
 
 var ratioCycle = []int{-1, 0, 1, 2, 3}
@@ -647,7 +647,7 @@ func runLeaf[T any](c *engine.Chooser, a *adapter[T], scName string, cfg *scenar
 // violation. Level and scale of such outputs, and all other outputs of the same leaf, are judged as usual.
 // Once the defect is fixed the outputs compare equal and nothing is demoted.
 const (
-	classNaiveOnlyZero  = "naive-only-diagonal-0"       // FINDINGS #2
+	classNaiveOnlyZero  = "naive-only-diagonal-0"         // FINDINGS #2
 	classManyAfterGiant = "EvaluateMany-after-giant-step" // FINDINGS #1
 )
 
